@@ -94,7 +94,7 @@ package node
 
 //@ pred isNamer(n ByteCoder) bool := dyntype(n) == typeid[Name]() || dyntype(n) == typeid[Local]() || dyntype(n) == typeid[Closure]()
 //@ pred exprOK(n ByteCoder) bool := isExpr(n) && wfAST(n)
-//@ type ByteCoder.byteCode [C05,C12]
+//@ type ByteCoder.byteCode [C05,C12,C01]
 //@   params self, srcsel, fl, cr
 //@   requires[sel] 0 <= srcsel && srcsel <= 2
 //@   requires[ast] wfAST(self)
